@@ -9,7 +9,6 @@ import (
 	"verif/vk"
 
 	"github.com/lianxiangcloud/linkchain/consensus"
-	dbm "github.com/lianxiangcloud/linkchain/libs/db"
 	"github.com/lianxiangcloud/linkchain/types"
 )
 
@@ -25,8 +24,27 @@ const (
 	sInc
 	sGetProposer
 	sCopy
-	sReload
+	sReload     // id = reloadKind: the lazy twins are replaced by cold equivalents (the warm twin keeps running)
+	sTotal      // TotalVotingPower() on every twin (an observation that is part of the sequence)
+	sUpdateVals // consensus.updateValidators with change list #id on every twin
+	sStart      // only as first letter: every twin starts as NewValidatorSet(start set #id) (+ rotations)
 )
+
+// change lists for updateValidators (power 0 = remove); entries refer to validators 0..2
+var changeLists = [][]entry{
+	{{0, 3, 0}, {1, 0, 0}},
+	{{1, 1, 0}, {2, 3, 0}},
+	{{2, 0, 0}, {0, 1, 1}},
+}
+
+// start sets: built by the constructor (cache warm, rotated once), then rotated `rot` more times
+var startSets = []struct {
+	vals []entry
+	rot  int
+}{
+	{[]entry{{0, 1, 0}, {1, 3, 0}}, 0},
+	{[]entry{{0, 1, 0}, {1, 1, 0}, {2, 3, 0}}, 1},
+}
 
 type sop struct {
 	kind sopKind
@@ -36,9 +54,10 @@ type sop struct {
 }
 
 type setCfg struct {
-	ids    int
-	powers []int64
-	altCB  bool // one extra Add/Update variant with another coinbase (validator 0 only)
+	ids     int
+	powers  []int64
+	altCB   bool // one extra Add/Update variant with another coinbase (validator 0 only)
+	commits int  // sequences of up to this many operations end with a third lazy twin that is first looked at through VerifyCommit (signature checks: costly)
 }
 
 func (c *setCfg) ops() []sop {
@@ -59,7 +78,16 @@ func (c *setCfg) ops() []sop {
 	for id := 0; id < c.ids; id++ {
 		out = append(out, sop{kind: sRemove, id: id})
 	}
-	out = append(out, sop{kind: sInc}, sop{kind: sGetProposer}, sop{kind: sCopy}, sop{kind: sReload})
+	out = append(out, sop{kind: sInc}, sop{kind: sGetProposer}, sop{kind: sCopy}, sop{kind: sTotal})
+	for k := relDecoded; k <= relLiteral; k++ {
+		out = append(out, sop{kind: sReload, id: int(k)})
+	}
+	for i := range changeLists {
+		out = append(out, sop{kind: sUpdateVals, id: i})
+	}
+	for i := range startSets {
+		out = append(out, sop{kind: sStart, id: i})
+	}
 	return out
 }
 
@@ -78,7 +106,13 @@ func (o sop) String() string {
 	case sCopy:
 		return "Copy() (continue on the copy, keep watching the original)"
 	case sReload:
-		return "SaveStatus+LoadStatus (continue on the loaded set)"
+		return "restart: lazy twins become " + reloadKind(o.id).String()
+	case sTotal:
+		return "TotalVotingPower()"
+	case sUpdateVals:
+		return "updateValidators(" + strings.Replace(listName(changeLists[o.id]), "app returns ", "", 1) + ")  [power 0 = remove]"
+	case sStart:
+		return fmt.Sprintf("start from NewValidatorSet(%s) + %d rotations", listName(startSets[o.id].vals), startSets[o.id].rot)
 	}
 	return "?"
 }
@@ -113,22 +147,168 @@ func hashOfContent(m *model) []byte {
 }
 
 type sinst struct {
-	set      *types.ValidatorSet
+	set      *types.ValidatorSet   // the warm twin: looked at after every operation
+	lazy     []*types.ValidatorSet // twins that only receive the operations (see cold.go)
+	kind     reloadKind            // what the lazy twins went through
+	lazyWarm bool                  // state-key only: would the ORIGINAL code have the lazy twins' total cached now?
+	commits  bool                  // this sequence ends with the VerifyCommit observation
 	m        *model
 	orig     *types.ValidatorSet
 	origSnap string
 	origHash []byte
 	copied   bool
-	reloaded bool
 	soft     [][2]string
 }
 
-func newSinst() *sinst {
-	return &sinst{set: types.NewValidatorSet(nil), m: newModel()}
+func newSinst(c *setCfg, seqLen int) *sinst {
+	in := &sinst{set: types.NewValidatorSet(nil), m: newModel(), commits: seqLen <= c.commits}
+	n := 2
+	if in.commits {
+		n = 3
+	}
+	for i := 0; i < n; i++ {
+		in.lazy = append(in.lazy, types.NewValidatorSet(nil))
+	}
+	return in
+}
+
+// onLazy applies f to every lazy twin and then compares the twin's FIELDS (no accessor) with the reference
+func (in *sinst) onLazy(what string, f func(t *types.ValidatorSet) (ok bool, detail string)) (string, string) {
+	want := in.m.String()
+	for i, t := range in.lazy {
+		if ok, detail := f(t); !ok {
+			return keyLazyResult, fmt.Sprintf("%s on the twin that is only operated on [%s]: %s", what, in.kind, detail)
+		}
+		if got := snapSet(in.lazy[i]); got != want {
+			return onlyProposerDiffers(got, want, keyLazyContent), fmt.Sprintf("after %s the twin that is only operated on [%s] holds %s, live twin and reference %s", what, in.kind, got, in.m.String())
+		}
+	}
+	return "", ""
+}
+
+// refUpdateValidators: the reference for consensus.updateValidators
+func refUpdateValidators(m *model, l []entry) {
+	for _, e := range l {
+		i := m.find(e.id)
+		switch {
+		case i < 0 && e.p <= 0:
+		case i < 0:
+			m.add(e.id, e.p, e.cb)
+		case e.p == 0:
+			m.remove(e.id)
+		case e.p != m.v[i].p:
+			m.update(e.id, e.p, e.cb)
+		}
+	}
 }
 
 // apply returns (enabled, violationKey, what)
 func (in *sinst) apply(o sop) (bool, string, string) {
+	before := in.m.content()
+	had := o.kind == sUpdate && in.m.find(o.id) >= 0
+	en, k, w := in.applyWarm(o)
+	if !en || k != "" {
+		return en, k, w
+	}
+	k, w = in.applyLazy(o)
+	switch o.kind {
+	case sInc, sTotal, sStart:
+		in.lazyWarm = true
+	case sReload:
+		in.lazyWarm = false
+	case sAdd, sUpdate, sRemove, sUpdateVals:
+		if in.m.content() != before || had {
+			in.lazyWarm = false // membership operations drop the cached total
+		}
+	}
+	return true, k, w
+}
+
+// applyLazy: the same operation on the lazy twins; results must equal what the warm twin (= reference) returned
+func (in *sinst) applyLazy(o sop) (string, string) {
+	name := o.String()
+	switch o.kind {
+	case sAdd:
+		return in.onLazy(name, func(t *types.ValidatorSet) (bool, string) {
+			had := t.HasAddress(fx[o.id].addr)
+			got := t.Add(mkVal(o.id, o.p, o.cb))
+			return got == !had, fmt.Sprintf("returned %v", got)
+		})
+	case sUpdate:
+		return in.onLazy(name, func(t *types.ValidatorSet) (bool, string) {
+			had := t.HasAddress(fx[o.id].addr)
+			got := t.Update(mkVal(o.id, o.p, o.cb))
+			return got == had, fmt.Sprintf("returned %v", got)
+		})
+	case sRemove:
+		return in.onLazy(name, func(t *types.ValidatorSet) (bool, string) {
+			had := t.HasAddress(fx[o.id].addr)
+			_, got := t.Remove(fx[o.id].addr)
+			return got == had, fmt.Sprintf("returned %v", got)
+		})
+	case sInc:
+		k, w := in.onLazy(name, func(t *types.ValidatorSet) (bool, string) { t.IncrementAccum(1); return true, "" })
+		if k == keyLazyContent {
+			k = keyLazyRot
+		}
+		return k, w
+	case sGetProposer:
+		want := in.m.clone().getProposer()
+		k, w := in.onLazy(name, func(t *types.ValidatorSet) (bool, string) {
+			p := t.GetProposer()
+			got := -1
+			if p != nil {
+				got = idOf(p.Address)
+			}
+			return got == want, fmt.Sprintf("returned #%d, live twin #%d", got, want)
+		})
+		if k == keyLazyResult {
+			k = keyLazyProp
+		}
+		return k, w
+	case sCopy:
+		for i := range in.lazy {
+			in.lazy[i] = in.lazy[i].Copy()
+		}
+		return in.onLazy(name, func(t *types.ValidatorSet) (bool, string) { return true, "" })
+	case sTotal:
+		want := in.m.total()
+		k, w := in.onLazy(name, func(t *types.ValidatorSet) (bool, string) {
+			got := t.TotalVotingPower()
+			return got == want, fmt.Sprintf("returned %d, live twin %d", got, want)
+		})
+		if k == keyLazyResult {
+			k = keyLazyTotal
+		}
+		return k, w
+	case sReload:
+		for i := range in.lazy {
+			// the bytes go through the same codec as the status database (loadValidatorsInfo); the full
+			// SaveStatus/LoadStatus path is taken by the updateStatus search
+			in.lazy[i] = reloadFast(reloadKind(o.id), in.lazy[i])
+		}
+		in.kind = reloadKind(o.id)
+		if k, w := in.onLazy(name, func(t *types.ValidatorSet) (bool, string) { return true, "" }); k != "" {
+			return keyReloadDiff, w
+		}
+	case sUpdateVals:
+		return in.onLazy(name, func(t *types.ValidatorSet) (bool, string) {
+			err := consensus.VerifC17UpdateValidators(t, listVals(changeLists[o.id], nil))
+			return err == nil, fmt.Sprint(err)
+		})
+	case sStart:
+		for i := range in.lazy {
+			in.lazy[i] = types.NewValidatorSet(listVals(startSets[o.id].vals, nil))
+			for j := 0; j < startSets[o.id].rot; j++ {
+				in.lazy[i].IncrementAccum(1)
+			}
+		}
+		return in.onLazy(name, func(t *types.ValidatorSet) (bool, string) { return true, "" })
+	}
+	return "", ""
+}
+
+func (in *sinst) applyWarm(o sop) (bool, string, string) {
 	switch o.kind {
 	case sAdd:
 		got, want := in.set.Add(mkVal(o.id, o.p, o.cb)), in.m.add(o.id, o.p, o.cb)
@@ -178,18 +358,32 @@ func (in *sinst) apply(o sop) (bool, string, string) {
 			return true, keyCopyDiff, fmt.Sprintf("Copy() = %s, original %s", got, in.origSnap)
 		}
 	case sReload:
-		if in.reloaded || len(in.m.v) == 0 {
+		if in.kind != relNone || len(in.m.v) == 0 {
 			return false, "", ""
 		}
-		db := dbm.NewMemDB()
-		consensus.SaveStatus(db, consensus.NewStatus{ChainID: "c17", LastBlockHeight: 7, LastHeightValidatorsChanged: 8,
-			Validators: in.set, LastValidators: types.NewValidatorSet(nil)})
-		st, err := consensus.LoadStatus(db)
-		if err != nil || st.Validators == nil {
-			return true, keyReloadDiff, fmt.Sprintf("LoadStatus after SaveStatus: %v", err)
+		// the warm twin keeps running; only the lazy twins restart (applyLazy)
+	case sTotal:
+		if got, want := in.set.TotalVotingPower(), in.m.total(); got != want {
+			return true, keyTotal, fmt.Sprintf("TotalVotingPower()=%d, saturating sum of %s is %d", got, in.m.content(), want)
 		}
-		in.set = st.Validators
-		in.reloaded = true
+	case sUpdateVals:
+		if err := consensus.VerifC17UpdateValidators(in.set, listVals(changeLists[o.id], nil)); err != nil {
+			return true, keyUpdVals, "updateValidators: " + err.Error()
+		}
+		refUpdateValidators(in.m, changeLists[o.id])
+		if got := snapSet(in.set); got != in.m.String() {
+			return true, onlyProposerDiffers(got, in.m.String(), keyUpdVals), fmt.Sprintf("%v: real %s, reference %s", o, got, in.m.String())
+		}
+	case sStart:
+		in.set = types.NewValidatorSet(listVals(startSets[o.id].vals, nil))
+		for _, e := range startSets[o.id].vals {
+			in.m.v = append(in.m.v, mv{e.id, e.p, e.cb, 0})
+		}
+		in.m.step()
+		for j := 0; j < startSets[o.id].rot; j++ {
+			in.set.IncrementAccum(1)
+			in.m.step()
+		}
 	}
 	return true, "", ""
 }
@@ -206,8 +400,6 @@ func (in *sinst) check() (string, string) {
 		switch {
 		case got[:gi] == in.m.String()[:wi]:
 			return keyPropCache, what // same validators and priorities, only the cached proposer differs
-		case in.reloaded:
-			return keyReloadDiff, what
 		}
 		return keySetContent, what
 	}
@@ -279,11 +471,21 @@ func (in *sinst) check() (string, string) {
 			return keyCopyAlias2, fmt.Sprintf("rotating copies of the set changed the set itself: %s -> %s", in.m.String(), got)
 		}
 	}
+	// the twins that were never looked at: now, in a different order each
+	verdicts := ""
+	if in.commits && len(in.m.v) > 0 {
+		verdicts = commitVerdicts(s)
+	}
+	for i, t := range in.lazy {
+		if k, w := observeLazy(t, in.m, i, in.kind, verdicts); k != "" {
+			return k, w
+		}
+	}
 	return "", ""
 }
 
 func (in *sinst) key() string {
-	return fmt.Sprintf("%s|c%v|r%v", in.m.String(), in.copied, in.reloaded)
+	return fmt.Sprintf("%s|c%v|r%d|w%v", in.m.String(), in.copied, in.kind, in.lazyWarm)
 }
 
 func runSetSearch(r *vk.Run, c *setCfg, name string, depth int) vk.Result {
@@ -294,8 +496,11 @@ func runSetSearch(r *vk.Run, c *setCfg, name string, depth int) vk.Result {
 		OpName:          func(i int) string { return ops[i].String() },
 		Depth:           depth,
 		MergeCheckEvery: 5000,
+		Enabled: func(hist []int, op int) bool {
+			return ops[op].kind != sStart || len(hist) == 0
+		},
 		Exec: func(hist []int) (out vk.Outcome) {
-			in := newSinst()
+			in := newSinst(c, len(hist))
 			defer func() {
 				if e := recover(); e != nil {
 					out = vk.Outcome{Err: keyPanic + ":set-op", What: fmt.Sprint(e)}
@@ -325,4 +530,13 @@ func runSetSearch(r *vk.Run, c *setCfg, name string, depth int) vk.Result {
 			return vk.Outcome{Key: in.key(), Soft: in.soft}
 		},
 	})
+}
+
+// onlyProposerDiffers: same validators and priorities, only the cached proposer differs => that is the root cause
+func onlyProposerDiffers(got, want, otherwise string) string {
+	gi, wi := strings.LastIndex(got, "|P="), strings.LastIndex(want, "|P=")
+	if gi >= 0 && wi >= 0 && got[:gi] == want[:wi] {
+		return keyPropCache
+	}
+	return otherwise
 }
